@@ -11,7 +11,8 @@ import codecrules
 TECHNIQUE = ("table agreement of extracted constants with a frozen RFC/IANA table (header bit layout, OPT TTL overloading evaluated exactly over the 32 "
              "single-bit inputs of the extracted expression trees, enumerator values), must-set typestate of every declared key on every success path "
              "of each RR parser, key/datatype/primitive consistency, exact finite-domain evaluation of the label escaping expressions over all 256 byte "
-             "values, and a rejection-cause rule (the name parser may reject only on wire-derived quantities)")
+             "values, and a rejection-cause rule (the name parser may reject only on wire-derived quantities)"
+             ", guard-vocabulary check of every failure on the parse path against frozen protocol limits, def-use purity of numeric setter arguments, callee-precondition x dominating non-zero fact for length-rejecting primitives")
 LEVEL_TEXT = ("static: decides only the finite part of RFC agreement: header flag/opcode/rcode positions on both sides; the OPT pseudo-RR's class/TTL "
               "overloading and extended-rcode assembly as exact bit maps; numeric values of all type/class/opcode/rcode/option/SVCB-key enumerators against "
               "a frozen IANA table; every key a record type declares is set on every success path of its parser; key <-> datatype <-> wire primitive "
